@@ -169,3 +169,44 @@ def gen_frame (rng, kind=None, tagged=None, pad=None, payload_len=None,
   else:
     raise KeyError(k)
   return raw, desc
+
+
+# --------------------------------------------------------------------------
+# relatives of a frame: other packets of the same conversation
+
+def mirror (raw):
+  """The frame's answer: Ethernet, IPv4 and TCP/UDP source and destination
+  exchanged (ARP: sender and target).  Every checksum stays right, the sums
+  being commutative.  None if the frame has no such relative."""
+  p = F.parse(raw)
+  if "src" not in p: return None
+  b = bytearray(raw)
+  b[0:6], b[6:12] = raw[6:12], raw[0:6]
+  if "ip" in p:
+    o = p["ip"]["off"]
+    b[o + 12:o + 16], b[o + 16:o + 20] = raw[o + 16:o + 20], raw[o + 12:o + 16]
+    if "tcp" in p or "udp" in p:
+      l4 = p["ip"]["l4_off"]
+      b[l4:l4 + 2], b[l4 + 2:l4 + 4] = raw[l4 + 2:l4 + 4], raw[l4:l4 + 2]
+  elif "arp" in p:
+    o = p["l3off"]
+    b[o + 8:o + 18], b[o + 18:o + 28] = raw[o + 18:o + 28], raw[o + 8:o + 18]
+  b = bytes(b)
+  return b if b != raw else None
+
+
+def twin (raw):
+  """Another connection between the same hosts: one bit in which the two
+  TCP/UDP port numbers differ is inverted in both (say 1000->80 becomes
+  1001->81), which leaves every checksum as it was.  None if the frame has
+  no ports or they are equal."""
+  p = F.parse(raw)
+  t = p.get("tcp") or p.get("udp")
+  if not t or "ip" not in p: return None
+  d = t["sport"] ^ t["dport"]
+  if not d: return None
+  bit = d & -d
+  l4 = p["ip"]["l4_off"]
+  b = bytearray(raw)
+  b[l4:l4 + 4] = struct.pack("!HH", t["sport"] ^ bit, t["dport"] ^ bit)
+  return bytes(b)
